@@ -129,3 +129,301 @@ theorem clone_independent (r : Registry) (name : Str) (t : Tmpl) :
     clone = r := rfl
 
 end Hbs.C17
+
+/-! ### refinement: ANY history of registry operations behaves like a simple abstract map
+    name ↦ registration (a function, so no representation at all), observed through `has_template` and
+    through what a render loads.  The file system is an input of the operations that read it. -/
+namespace Hbs.C17
+open Hbs Hbs.Spec
+
+-- `compile2` is opaque here: the refinement does not depend on what compilation does (and unfolding it makes
+-- the kernel's defeq checks run the PEG interpreter symbolically)
+attribute [local irreducible] compile2
+
+/-- the operations of the registry's template state machine -/
+inductive Op where
+  | regString (name src : Str)
+  | regFile (name path : Str)
+  | regTemplate (name : Str) (t : Tmpl)
+  | unregister (name : Str)
+  | clear
+  | setDev (v : Bool)
+  | setPreventIndent (v : Bool)
+
+/-- a rejected registration leaves the registry as it was -/
+def keepOnFail (r : Registry) (x : CRes Registry) : Registry :=
+  match x with
+  | .ok r' => r'
+  | _ => r
+
+/-- one operation on the model of `Registry` -/
+def step (r : Registry) (fs : FS) (op : Op) : Registry :=
+  match op with
+  | .regString n src => keepOnFail r (r.registerTemplateString n src)
+  | .regFile n p => keepOnFail r (r.registerTemplateFile fs n p)
+  | .regTemplate n t => r.registerTemplate n t
+  | .unregister n => r.unregisterTemplate n
+  | .clear => r.clearTemplates
+  | .setDev v => r.setDevMode v
+  | .setPreventIndent v => { r with preventIndent := v }
+
+/-- the abstract state: what each name stands for, and the two flags -/
+structure AState where
+  map : Str → Option Registration
+  dev : Bool
+  preventIndent : Bool
+
+def untrack : Registration → Registration
+  | .tracked t _ => .compiled t
+  | r => r
+
+/-- bind `n` to the registration made from a successfully compiled template; nothing on failure -/
+def bindIfOk (a : AState) (n : Str) (mk : Tmpl → Registration) (x : CRes Tmpl) : AState :=
+  match x with
+  | .ok t => { a with map := fun q => if q = n then some (mk t) else a.map q }
+  | _ => a
+
+/-- the abstract machine -/
+def astep (a : AState) (fs : FS) (op : Op) : AState :=
+  match op with
+  | .regString n src =>
+    bindIfOk a n .compiled (compile2 src { name := some n, isPartial := false, preventIndent := a.preventIndent })
+  | .regFile n p =>
+    match assocGet fs p with
+    | none => a
+    | some src =>
+      bindIfOk a n (fun t => if a.dev then .tracked t p else .compiled t)
+        (compile2 src { name := some n, isPartial := false, preventIndent := a.preventIndent })
+  | .regTemplate n t => { a with map := fun q => if q = n then some (.compiled t) else a.map q }
+  | .unregister n => { a with map := fun q => if q = n then none else a.map q }
+  | .clear => { a with map := fun _ => none }
+  | .setDev v => if v then { a with dev := true } else { a with dev := false, map := fun q => (a.map q).map untrack }
+  | .setPreventIndent v => { a with preventIndent := v }
+
+/-- what a render of `name` loads, abstractly: the compiled copy, or – for a tracked name – the file as
+    it is NOW, compiled with the settings in force NOW -/
+def aload (a : AState) (fs : FS) (name : Str) : LoadRes :=
+  match a.map name with
+  | none => .err (.of (.templateNotFound name))
+  | some (.compiled t) => .ok t
+  | some (.tracked _ path) =>
+    match assocGet fs path with
+    | none => .err (.of (.templateError { reason := .ioError name }))
+    | some src =>
+      match compile2 src { name := some name, preventIndent := a.preventIndent, isPartial := false } with
+      | .ok t => .ok t
+      | .err e => .err (.of (.templateError e))
+      | .panic s => .panic s
+      | .fuel => .fuel
+
+/-- the abstraction function -/
+def abs (r : Registry) : AState :=
+  { map := fun n => (assocGet r.templates n).map (fun t =>
+      match assocGet r.sources n with
+      | some p => .tracked t p
+      | none => .compiled t),
+    dev := r.dev, preventIndent := r.preventIndent }
+
+/-- the representation invariant: sources are recorded only in dev mode and only for registered names -/
+structure Inv (r : Registry) : Prop where
+  noDev : r.dev = false → r.sources = []
+  sub : ∀ n, (assocGet r.sources n).isSome → (assocGet r.templates n).isSome
+
+theorem inv_new : Inv Registry.new := ⟨fun _ => rfl, fun n h => by simp [Registry.new, assocGet] at h⟩
+
+theorem AState.ext' {a b : AState} (h1 : ∀ n, a.map n = b.map n) (h2 : a.dev = b.dev) (h3 : a.preventIndent = b.preventIndent) :
+    a = b := by
+  cases a; cases b; simp only [AState.mk.injEq] at *; exact ⟨funext h1, h2, h3⟩
+
+theorem abs_registerTemplate (r : Registry) (n : Str) (t : Tmpl) :
+    abs (r.registerTemplate n t) = { abs r with map := fun q => if q = n then some (.compiled t) else (abs r).map q } := by
+  apply AState.ext'
+  · intro q
+    simp only [abs, Registry.registerTemplate, assocInsert]
+    by_cases hq : q = n
+    · subst hq; simp [assocGet_insert_same, assocGet_remove_same]
+    · simp [hq, assocGet_insert_other _ _ _ _ hq, assocGet_remove_other _ _ _ hq]
+  · rfl
+  · rfl
+
+theorem inv_registerTemplate (r : Registry) (n : Str) (t : Tmpl) (h : Inv r) : Inv (r.registerTemplate n t) := by
+  constructor
+  · intro hd
+    have := h.noDev hd
+    simp [Registry.registerTemplate, this, assocRemove]
+  · intro q hq
+    simp only [Registry.registerTemplate, assocInsert] at hq ⊢
+    by_cases hqn : q = n
+    · subst hqn; simp [assocGet_insert_same]
+    · rw [assocGet_remove_other _ _ _ hqn] at hq
+      rw [assocGet_insert_other _ _ _ _ hqn]
+      exact h.sub q hq
+
+/-- **one step**: the concrete operation and the abstract one commute with the abstraction, and the
+    invariant is kept -/
+theorem step_refines (r : Registry) (fs : FS) (op : Op) (h : Inv r) :
+    abs (step r fs op) = astep (abs r) fs op ∧ Inv (step r fs op) := by
+  cases op with
+  | regString n src =>
+    show abs (keepOnFail r (r.registerTemplateString n src)) =
+        bindIfOk (abs r) n .compiled (compile2 src { name := some n, isPartial := false, preventIndent := r.preventIndent }) ∧
+      Inv (keepOnFail r (r.registerTemplateString n src))
+    unfold Registry.registerTemplateString
+    cases hc : compile2 src { name := some n, isPartial := false, preventIndent := r.preventIndent } with
+    | ok t =>
+      simp only [keepOnFail, bindIfOk]
+      exact ⟨abs_registerTemplate r n t, inv_registerTemplate r n t h⟩
+    | err e => simp only [keepOnFail, bindIfOk]; exact ⟨trivial, h⟩
+    | panic s => simp only [keepOnFail, bindIfOk]; exact ⟨trivial, h⟩
+    | fuel => simp only [keepOnFail, bindIfOk]; exact ⟨trivial, h⟩
+  | regFile n p =>
+    show abs (keepOnFail r (r.registerTemplateFile fs n p)) =
+        (match assocGet fs p with
+         | none => abs r
+         | some src => bindIfOk (abs r) n (fun t => if r.dev then .tracked t p else .compiled t)
+            (compile2 src { name := some n, isPartial := false, preventIndent := r.preventIndent })) ∧
+      Inv (keepOnFail r (r.registerTemplateFile fs n p))
+    unfold Registry.registerTemplateFile
+    cases hf : assocGet fs p with
+    | none => simp only [keepOnFail]; exact ⟨trivial, h⟩
+    | some src =>
+      simp only []
+      unfold Registry.registerTemplateString
+      cases hc : compile2 src { name := some n, isPartial := false, preventIndent := r.preventIndent } with
+      | err e => simp only [keepOnFail, bindIfOk]; exact ⟨trivial, h⟩
+      | panic s => simp only [keepOnFail, bindIfOk]; exact ⟨trivial, h⟩
+      | fuel => simp only [keepOnFail, bindIfOk]; exact ⟨trivial, h⟩
+      | ok t =>
+        simp only [keepOnFail, bindIfOk]
+        have hdev : (r.registerTemplate n t).dev = r.dev := rfl
+        rw [hdev]
+        cases hdv : r.dev with
+        | false =>
+          simp only [Bool.false_eq_true, ↓reduceIte]
+          exact ⟨abs_registerTemplate r n t, inv_registerTemplate r n t h⟩
+        | true =>
+          simp only [↓reduceIte]
+          constructor
+          · apply AState.ext'
+            · intro q
+              simp only [abs, Registry.registerTemplate, assocInsert]
+              by_cases hq : q = n
+              · subst hq; simp [assocGet_insert_same]
+              · simp [hq, assocGet_insert_other _ _ _ _ hq, assocGet_remove_other _ _ _ hq]
+            · simp [abs, Registry.registerTemplate, hdv]
+            · rfl
+          · constructor
+            · intro hd'; simp [Registry.registerTemplate, hdv] at hd'
+            · intro q hq
+              simp only [Registry.registerTemplate, assocInsert] at hq ⊢
+              by_cases hqn : q = n
+              · subst hqn; simp [assocGet_insert_same]
+              · rw [assocGet_insert_other _ _ _ _ hqn, assocGet_remove_other _ _ _ hqn] at hq
+                rw [assocGet_insert_other _ _ _ _ hqn]
+                exact h.sub q hq
+  | regTemplate n t => exact ⟨abs_registerTemplate r n t, inv_registerTemplate r n t h⟩
+  | unregister n =>
+    constructor
+    · apply AState.ext'
+      · intro q
+        simp only [step, astep, abs, Registry.unregisterTemplate]
+        by_cases hq : q = n
+        · subst hq; simp [assocGet_remove_same]
+        · simp [hq, assocGet_remove_other _ _ _ hq]
+      · rfl
+      · rfl
+    · constructor
+      · intro hd; have := h.noDev hd; simp [step, Registry.unregisterTemplate, this, assocRemove]
+      · intro q hq
+        simp only [step, Registry.unregisterTemplate] at hq ⊢
+        by_cases hqn : q = n
+        · subst hqn; simp [assocGet_remove_same] at hq
+        · rw [assocGet_remove_other _ _ _ hqn] at hq ⊢; exact h.sub q hq
+  | clear =>
+    constructor
+    · apply AState.ext'
+      · intro q; simp [step, astep, abs, Registry.clearTemplates, assocGet]
+      · rfl
+      · rfl
+    · exact ⟨fun _ => rfl, fun q hq => by simp [step, Registry.clearTemplates, assocGet] at hq⟩
+  | setDev v =>
+    cases v with
+    | true =>
+      constructor
+      · apply AState.ext'
+        · intro q; simp [step, astep, abs, Registry.setDevMode]
+        · rfl
+        · rfl
+      · exact ⟨fun hd => by simp [step, Registry.setDevMode] at hd, fun q hq => h.sub q (by simpa [step, Registry.setDevMode] using hq)⟩
+    | false =>
+      constructor
+      · apply AState.ext'
+        · intro q
+          simp only [step, astep, abs, Registry.setDevMode, Bool.false_eq_true, ↓reduceIte, assocGet]
+          cases assocGet r.templates q with
+          | none => rfl
+          | some t => cases assocGet r.sources q <;> rfl
+        · rfl
+        · rfl
+      · exact ⟨fun _ => rfl, fun q hq => by simp [step, Registry.setDevMode, assocGet] at hq⟩
+  | setPreventIndent v =>
+    exact ⟨AState.ext' (fun _ => rfl) rfl rfl, ⟨h.noDev, h.sub⟩⟩
+
+/-- **observations agree**: `has_template`, membership in `get_templates`, and what a render loads -/
+theorem has_refines (r : Registry) (n : Str) : r.hasTemplate n = ((abs r).map n).isSome := by
+  simp only [Registry.hasTemplate, abs]
+  cases assocGet r.templates n <;> simp
+
+theorem load_refines (r : Registry) (fs : FS) (n : Str) (h : Inv r) : r.getOrLoad fs n = aload (abs r) fs n := by
+  simp only [Registry.getOrLoad, Registry.getOrLoadOptional, aload, abs]
+  cases hd : r.dev with
+  | false =>
+    have hs := h.noDev hd
+    simp only [hs, assocGet]
+    cases assocGet r.templates n <;> rfl
+  | true =>
+    cases hsrc : assocGet r.sources n with
+    | none =>
+      simp only []
+      cases assocGet r.templates n <;> rfl
+    | some path =>
+      have hsub := h.sub n (by simp [hsrc])
+      cases ht : assocGet r.templates n with
+      | none => simp [ht] at hsub
+      | some t =>
+        simp only [Option.map_some]
+        cases assocGet fs path with
+        | none => rfl
+        | some src =>
+          simp only []
+          cases compile2 src { name := some n, preventIndent := r.preventIndent, isPartial := false } <;> rfl
+
+/-- a history: operations interleaved with whatever the file system is at that moment -/
+def run (r : Registry) : List (FS × Op) → Registry
+  | [] => r
+  | (fs, op) :: rest => run (step r fs op) rest
+def arun (a : AState) : List (FS × Op) → AState
+  | [] => a
+  | (fs, op) :: rest => arun (astep a fs op) rest
+
+/-- **the refinement theorem**: after ANY history of operations (of any length, with the file system
+    changing arbitrarily in between) the registry is, as far as `has_template` and rendering can tell,
+    the abstract map that the same history produces. -/
+theorem history_refines (h : List (FS × Op)) (r : Registry) (hi : Inv r) :
+    abs (run r h) = arun (abs r) h ∧ Inv (run r h) := by
+  induction h generalizing r with
+  | nil => exact ⟨rfl, hi⟩
+  | cons x rest ih =>
+    obtain ⟨fs, op⟩ := x
+    obtain ⟨h1, h2⟩ := step_refines r fs op hi
+    have := ih (step r fs op) h2
+    simp only [run, arun]
+    rw [← h1]; exact this
+
+theorem history_observations (h : List (FS × Op)) (fs : FS) (n : Str) :
+    (run Registry.new h).hasTemplate n = ((arun (abs Registry.new) h).map n).isSome ∧
+    (run Registry.new h).getOrLoad fs n = aload (arun (abs Registry.new) h) fs n := by
+  obtain ⟨h1, h2⟩ := history_refines h Registry.new inv_new
+  exact ⟨by rw [has_refines, h1], by rw [load_refines _ _ _ h2, h1]⟩
+
+end Hbs.C17
